@@ -1,6 +1,6 @@
 (* C19 proofs, part 5: the explicit-fuel corollaries. *)
 From Coq Require Import List String NArith Bool Arith Lia.
-From C19 Require Import Model_C19 Proofs_Base Proofs_Expr Proofs_Stmt Proofs_Main Fuel_C19.
+From C19 Require Import Model_C19 Proofs_Base Proofs_Expr Proofs_Stmt Proofs_Main Fuel_C19 Proofs_Shape Proofs_Shape2.
 Import ListNotations.
 Local Open Scope string_scope.
 
@@ -41,3 +41,6 @@ Definition refuting_ast : list stmt := [SExpr (EAssign AAssign (EMember (EObject
 Lemma parse_shaped_refuted_lemma : exists ts a,
   parse_tokens ts = Some a /\ shaped_coreb a = true /\ parser_shapedb a = false /\ parse_tokens (print_tokens a) = None.
 Proof. exists refuting_tokens, refuting_ast. repeat split; vm_compute; reflexivity. Qed.
+
+Lemma parse_shaped_core_lemma : forall ts a, parse_tokens ts = Some a -> shaped_core a.
+Proof. exact parse_shaped_core_thm. Qed.
